@@ -89,11 +89,20 @@ Variants(p) ==
                            t \in { u \in Squares : p.board[u] = Empty /\ u % 7 = 1 /\ (KindOf(p.board[s]) # "P" \/ RankOf(u) \notin {0, 7}) } } : s \in pieceSq }
       swapped == { [q |-> [p EXCEPT !.board = Put(p.board, s, IF KindOf(p.board[s]) = "N" THEN Mk(ColorOf(p.board[s]), "B") ELSE Mk(ColorOf(p.board[s]), "N")), !.castle = {}, !.ep = 0],
                     rel |-> "diff", why |-> "piece kind replaced"] : s \in { u \in pieceSq : RankOf(u) \notin {0, 7} } }
-  IN { v \in rightsDrop \cup rightsAdd \cup epClear \cup epSet \cup flip \cup clocks \cup moved \cup swapped : LegalPosition(v.q) }
+      \* ownership: one piece changes colour, two pieces change colour, two different pieces trade squares
+      FlipPc(pc) == Mk(Other(ColorOf(pc)), KindOf(pc))
+      evenSq == { s \in Squares : p.board[s] \notin {Empty, "K", "k"} /\ s % 2 = 0 }
+      Bare(b) == [p EXCEPT !.board = b, !.castle = {}, !.ep = 0]
+      recolour1 == { [q |-> Bare(Put(p.board, s, FlipPc(p.board[s]))), rel |-> "diff", why |-> "piece recoloured"] : s \in evenSq }
+      recolour2 == { [q |-> Bare(Put(Put(p.board, st[1], FlipPc(p.board[st[1]])), st[2], FlipPc(p.board[st[2]]))), rel |-> "diff", why |-> "two pieces recoloured"] :
+                       st \in { x \in evenSq \X evenSq : x[1] < x[2] } }
+      exchanged == { [q |-> Bare(Put(Put(p.board, st[1], p.board[st[2]]), st[2], p.board[st[1]])), rel |-> "diff", why |-> "two pieces exchanged"] :
+                       st \in { x \in evenSq \X evenSq : x[1] < x[2] /\ p.board[x[1]] # p.board[x[2]] } }
+  IN { v \in rightsDrop \cup rightsAdd \cup epClear \cup epSet \cup flip \cup clocks \cup moved \cup swapped \cup recolour1 \cup recolour2 \cup exchanged : LegalPosition(v.q) }
 EmitHash(p) ==
   \A v \in Variants(p) :
     \* a variant that removes rights/ep from p is compared with p itself; p for 'moved' has rights cleared on both sides
-    LET base == IF v.why \in {"piece moved", "piece kind replaced"} THEN [p EXCEPT !.castle = {}, !.ep = 0] ELSE p IN
+    LET base == IF v.why \in {"piece moved", "piece kind replaced", "piece recoloured", "two pieces recoloured", "two pieces exchanged"} THEN [p EXCEPT !.castle = {}, !.ep = 0] ELSE p IN
     PrintT(<<"GEN", ToJson([p |-> ToFen(base), q |-> ToFen(v.q), rel |-> v.rel, why |-> v.why])>>)
 
 \* ---- mutation model for malformed text (C14): operates on code-point sequences ----------------
